@@ -48,7 +48,7 @@ theorem statusUpdate_table (p : Rule) (fb : Option Rule) (c : Nat) :
       else match fb with
         | some f => (f.statusCode.getD 0, some f.id)
         | none => (0, none) := by
-  unfold StatusCodeUpdate.getStatusCode admitsStatus statusUpdateOf
+  unfold StatusCodeUpdate.getStatusCode Rio.Consts.statusGetStatusCode admitsStatus statusUpdateOf
   simp only [any_eq_contains]
   cases hc : codesOf p with
   | nil => by_cases hz : c = 0 <;> cases exclOf p <;> cases fb <;> simp [hz]
@@ -62,7 +62,7 @@ theorem logOverride_table (p : Rule) (fb : Option Rule) (c : Nat) :
       else match fb with
         | some f => (some (f.logOverride.getD false), some f.id)
         | none => (none, none) := by
-  unfold LogOverride.getLogOverride admits logOverrideOf
+  unfold LogOverride.getLogOverride Rio.Consts.logGetLogOverride admits logOverrideOf
   simp only [any_eq_contains]
   cases hc : codesOf p with
   | nil => cases exclOf p <;> cases fb <;> simp
